@@ -770,7 +770,7 @@ def sib7b(ctx, pid):
         idx = ("call", "m:index", (C(tuple(two)) if False else ("list", tuple(C(x) for x in two)), ("slice", base, C(2), C(4))), ())
         want = ("slice", base, ("bin", "+", ("bin", "%", ("bin", "-", C(4), idx), C(4)), C(4)), None)
         want2 = ("slice", base, eng.mk_bin("+", C(4), ("bin", "%", ("bin", "-", C(4), idx), C(4))), None)
-        checked = any(rel_norm(tt, pol) == ("==", ("slice", base, C(0), C(2)), C(p00)) or rel_norm(tt, pol) == ("==", ("slice", base, None, C(2)), C(p00)) for tt, pol, _ in st.log)
+        checked = any(rel_norm(tt, pol) == ("==", ("slice", base, C(0), C(2)), C(p00)) or rel_norm(tt, pol) == ("==", ("slice", base, None, C(2)), C(p00)) for tt, pol, _ in st.log + st.alog)
         rrows[first1] = (ret in (want, want2), checked, tstr(ret)[:80])
     for k in (True, False):
         v = rrows.get(k)
